@@ -221,9 +221,9 @@ def obligations(tier):
                 if opts.get("non_negative"):
                     want_pc.append("make_svd_non_negative")
                 out.append(("sign resolution / the non-negative transformation run exactly when requested", [c[0] for c in pc], want_pc))
-                if opts.get("flip_sign"):
+                if opts.get("flip_sign") and pc and pc[0][0] == "svd_flip":   # (a missing call already fails the clause above)
                     out.append(("svd_flip receives the U, V of the LAST run of the method (after the imputation loop) and the u_based flag", [pc[0][1] is rec[-1]["out"][0], pc[0][2] is rec[-1]["out"][2], pc[0][3]], [True, True, opts.get("u_based_flip_sign", True)]))
-                if opts.get("non_negative"):
+                if opts.get("non_negative") and [c for c in pc if c[0] == "make_svd_non_negative"]:
                     nn_call = [c for c in pc if c[0] == "make_svd_non_negative"][0]
                     out.append(("make_svd_non_negative receives the singular values of the last run and the requested variant", [nn_call[3] is rec[-1]["out"][1], nn_call[5]], [True, opts["non_negative"]]))
                 out.append(("the singular values returned are the method's", r["out"][1] is rec[-1]["out"][1], True))
